@@ -21,7 +21,11 @@ Ops == { [op |-> k, p |-> p] : k \in {"create_file", "delete_file", "create_dire
        \cup { [op |-> "remove_directory", p |-> p, rec |-> r] : p \in Paths, r \in BOOLEAN }
        \cup { [op |-> "write_data", p |-> p, off |-> o, data |-> d] : p \in {"a", "d1/a", "d1"}, o \in 0..MaxOff, d \in Payloads }
        \cup { [op |-> "read_data", p |-> p, off |-> o, len |-> l] : p \in {"a", "d1/a"}, o \in 0..MaxOff, l \in {0, 1, 4} }
-Init == tree = {} /\ n = 0 /\ last = [op |-> [op |-> "none"], res |-> R({}, "none"), pre |-> {}]
+\* the exploration starts from the empty sandbox and from a populated one (so that reads / writes / removals of existing
+\* content are within the depth bound of the quick tier)
+Seeded == { [p |-> "a", dir |-> FALSE, d |-> <<2, 1>>], [p |-> "d1", dir |-> TRUE, d |-> <<>>], [p |-> "d1/a", dir |-> FALSE, d |-> <<1>>],
+            [p |-> "d1/d3", dir |-> TRUE, d |-> <<>>] }
+Init == tree \in {{}, Seeded} /\ n = 0 /\ last = [op |-> [op |-> "none"], res |-> R({}, "none"), pre |-> {}]
 Do(o) == /\ n < Depth
          /\ LET r == Apply(tree, o) IN tree' = r.tree /\ last' = [op |-> o, res |-> r, pre |-> tree]
          /\ n' = n + 1
